@@ -259,7 +259,8 @@ def obligations(tier):
                       weight=6))
     firsts_all = ["append", "delete", "replace", "expire", "delsnap", "gc", "open_txn", "contended_commit"]
     if tier == "quick":
-        plan = [(s, None, 2, T) for s in ["abs", "rel", "symlink", "rel_data", "rel_d", "trailing", "s3_p", "s3_data"]]
+        # (the L=2 tree below the 3-file prefix holds ~3.5 k histories: partitioned by the first operation so that every piece is exhausted)
+        plan = [(s, f, 2, T) for s in ["abs", "rel", "symlink", "rel_data", "rel_d", "trailing", "s3_p", "s3_data"] for f in firsts_all]
     else:
         # sized from a measured run (an L=3 sub-tree below one first operation: 4-10 k histories, ~10 min): every spelling with histories
         # of 2; the spellings 'abs', 'rel_data', 'symlink', 's3_p', 's3_data' with histories of 3, partitioned by the first operation
